@@ -58,6 +58,8 @@ def setup(backend, wdir):
     S.mk_bucket(ds, "passive")
     ds["passive"].insert([emb.ev(s, d, _G["lab"]["P"]) for s, d in PASSIVE])
     S.mk_bucket(ds, "A")
+    if backend != "memory":  # ids are global in the SQL backends: the passive bucket's ids are foreign to A
+        BL.FOREIGN_ID[0] = max(t[0] for t in S.dump_bucket(ds, "passive"))
     return ds
 
 
@@ -105,7 +107,7 @@ def expand_with(backend, wdir, hist, E, K, prefix=()):
     ds, m = replay(backend, wdir, full)
     self_canon = _canon(ds)
     passive0 = S.dump_bucket(ds, "passive")
-    ops = BL.enabled_ops(m, E, K)
+    ops = BL.enabled_ops(m, E, K, foreign=backend != "memory")
     succ = []
     for op in ops:
         ds, mm = replay(backend, wdir, full)
